@@ -75,16 +75,37 @@ def case_strategy(draw):
     case = {"cfg": cfg, "file": draw(S.file_specs(cfg, max_bytes=4096, allow_none=True))}
     if draw(st.integers(0, 4)) == 0:
         case["msgs"] = draw(st.lists(S.user_messages(), max_size=3))
+    if draw(st.integers(0, 3)) == 0:
+        # the same SourceHandler (and its filestore object) first carried another complete transfer
+        case["before"] = {"file": draw(st.one_of(st.none(), S.file_specs(cfg, max_bytes=700))), "req_mode": draw(st.sampled_from([None, "ACK", "NAK"])), "req_closure": draw(st.sampled_from([None, True, False]))}
     return case
 
 
 def evaluate(case):
     cfg = sim.norm_cfg(case["cfg"])
-    s = sim.Sim(case)
+    sess = None
+    if case.get("before"):
+        sim.install_clock()
+        sim.CLOCK.reset()
+        sess = sim.Session(cfg, "t")
+        b = case["before"]
+        c0 = dict(cfg)
+        c0["req_mode"], c0["req_closure"] = b.get("req_mode"), b.get("req_closure")
+        ps = sim.Sim({"cfg": c0, "file": b["file"]}, session=sess, fresh_clock=False)
+        ps.run(max_steps=4000, max_ticks=12)
+        if ps.outcome != "done":
+            sess.close()
+            return Result([], False, ["earlier-transfer-did-not-end"], {})
+    s = sim.Sim(case, session=sess, fresh_clock=sess is None)
     try:
-        return _evaluate(case, cfg, s)
+        r = _evaluate(case, cfg, s)
+        if sess is not None:
+            r.classes.append("after-earlier-transfer")
+        return r
     finally:
         s.close()
+        if sess is not None:
+            sess.close()
 
 
 def _evaluate(case, cfg, s):
@@ -112,8 +133,8 @@ def _evaluate(case, cfg, s):
     if excs:
         e = excs[0]
         return Result([verdict("stream", f"C07/exception/{e[3]}/{tag}", e[5])], False, ["exception"], sim.summarize(s))
-    raws = [e[4] for e in s.log if e[0] == "emit" and e[1] == "src"]
-    orig = [e[3] for e in s.log if e[0] == "emit" and e[1] == "src"]
+    raws = [e[4] for e in s.tlog if e[0] == "emit" and e[1] == "src"]
+    orig = [e[3] for e in s.tlog if e[0] == "emit" and e[1] == "src"]
     # optional ACK of Finished
     ack_raw = None
     if content is not None and (mode == "ACK" or closure) and not s.src.idle():
@@ -122,7 +143,7 @@ def _evaluate(case, cfg, s):
             s.src.call(AckPdu(conf, DirectiveType.EOF_PDU, ConditionCode.NO_ERROR, TransactionStatus.ACTIVE))
         fin = FinishedPdu(copy.copy(h.pdu_conf), FinishedParams(ConditionCode.NO_ERROR, DeliveryCode.DATA_COMPLETE, FileStatus.FILE_RETAINED))
         out = s.src.call(fin)
-        acks = [e for e in s.log if e[0] == "emit" and e[1] == "src" and sim.pdu_kind(e[3]) == "ACK_FIN"]
+        acks = [e for e in s.tlog if e[0] == "emit" and e[1] == "src" and sim.pdu_kind(e[3]) == "ACK_FIN"]
         if mode == "ACK":
             if len(acks) != 1:
                 vs.append(verdict("ack-of-finished", f"C07/ack-fin-count/{len(acks)}", ""))
@@ -240,9 +261,11 @@ def _evaluate(case, cfg, s):
         if again != raw:
             vs.append(verdict("parsable", f"C07/roundtrip-differs/{k}", f"PDU {i}"))
             break
-    if seq0 is not None and seq0 != cfg["seq_start"] % (1 << cfg["seq_width"]):
-        vs.append(verdict("header", "C07/seq-num-not-providers", f"{seq0} want {cfg['seq_start']}"))
-    for e in s.log:
+    # the provider's value for this transaction: its start value plus the number of transactions the handler carried before
+    want_seq = (cfg["seq_start"] + (1 if case.get("before") else 0)) % (1 << cfg["seq_width"])
+    if seq0 is not None and seq0 != want_seq:
+        vs.append(verdict("header", "C07/seq-num-not-providers", f"{seq0} want {want_seq}"))
+    for e in s.tlog:
         if e[0] == "emit_error":
             vs.append(verdict("parsable", f"C07/emit-error/{e[3]}", e[4]))
     size = None if content is None else len(content)
